@@ -46,6 +46,7 @@ type ReplayVal struct {
 }
 
 type Engine struct {
+	curPanic  *goPanic // the panic whose deferred calls are running (nil: none, or recovered)
 	prog      *ssa.Program
 	tt        *TermTab
 	solver    *Solver
@@ -189,6 +190,7 @@ func (e *Engine) resetPath(prefix []uint64) {
 	e.freshN = 0
 	e.fuel = e.opts.Fuel
 	e.depth = 0
+	e.curPanic = nil
 	e.maxDepth = e.opts.MaxDepth
 	e.globals = map[*ssa.Global]*Val{}
 	e.inited = map[*ssa.Package]bool{}
